@@ -78,10 +78,24 @@ def written_forms():
             "and-left": [obs(bin_("==", bin_("&&", v, call("P", I(7), I(5))), I(5)))],
             "or-left": [obs(bin_("==", bin_("||", v, call("P", I(7), I(5))), I(5)))],
             "via-let": [let("v", v), obs(if_(ident("v"), [expr(I(1))], [expr(I(2))])), obs(un("!", ident("v")))],
+            "if-not-else": [obs(if_(un("!", v), [expr(I(1))], [expr(I(2))]))],
+            "if-not-not-else": [obs(if_(un("!", un("!", v)), [expr(I(1))], [expr(I(2))]))],
+            "if-not4-else": [obs(if_(un("!", un("!", un("!", un("!", v)))), [expr(I(1))], [expr(I(2))]))],
+            "else-if-not-not": [obs(if_(lit(vbool(False)), [expr(I(0))], if_(un("!", un("!", v)), [expr(I(1))], [expr(I(2))])))],
         }
         for pos, body in progs_.items():
             out.append(("written-form %s %s" % (tag.replace(" ", "_"), pos), pre + body))
     return out
+
+
+def far_logic():
+    """&& and || behind a long stretch of code (their jumps land beyond 32 KiB of bytecode), at top level and in a function"""
+    pad = [expr(I(k % 10)) for k in range(9000)]
+    probes = [obs(bin_("&&", I(0), call("P", I(7), I(5)))), obs(bin_("||", lit(vstr("")), I(3))), obs(bin_("&&", I(2), I(4))),
+              obs(bin_("||", I(6), call("P", I(8), I(5)))), obs(un("!", bin_("&&", lit(vbool(False)), I(1)))), obs(I(77))]
+    pre = [OBS_DECL, fndef("P", ["t", "x"], [obs(ident("t")), expr(ident("x"))])]
+    return [("far-logic top", pre + pad + probes),
+            ("far-logic function", pre + [fndef("big", [], pad + probes + [expr(I(0))]), expr(call("big")), obs(I(78))])]
 
 
 def logic_in_filter_actions(rep):
@@ -132,6 +146,8 @@ def run(rep, tier, seed):
     for k, (tag, prog) in enumerate(written_forms()):
         items.append({"id": 950000 + k, "prog": prog, "pos": tag.split(" ")[2], "ta": tag.split(" ")[1].split("_")[0], "tb": "written-form",
                       "full_tag": tag})
+    for k, (tag, prog) in enumerate(far_logic()):
+        items.append({"id": 970000 + k, "prog": prog, "pos": tag.split(" ")[1], "ta": "far-logic", "tb": "beyond-32KiB", "full_tag": tag})
     bad, verdicts = progs.run_and_validate(rep, items, chk=("final",))
     rep.notes["written_form_cases_settled"] = sum(1 for it in items if it["tb"] == "written-form" and verdicts[it["id"]]["v"] == "ok")
     for it, out, v in bad:
